@@ -469,7 +469,9 @@ func (m *engineMon) afterOp(opLine string, pre *pokerface.GameState, err error) 
 				}
 			}
 		}
-		if d := st.CurrentWager - pcw; d > 0 && op.act != "call" && (pcw == 0 || d >= m.lastRaise) {
+		// (Raise(x) with x equal to the wager to match is carried out as a Call, reading I8)
+		isCall := op.act == "call" || (op.act == "raise" && op.x == pcw)
+		if d := st.CurrentWager - pcw; d > 0 && !isCall && (pcw == 0 || d >= m.lastRaise) {
 			m.lastRaise = d
 		}
 		if st.Round == pre.Status.Round && st.CurrentWager < pcw {
